@@ -204,7 +204,10 @@ async def build(M, sdl, tag):
         if d["kind"] == "scalar": Scalar(d["name"], schema_name=name)(er.CustomScalar())
     class Mark:
         async def on_field_execution(self, da, nxt, parent, args, ctx, info): return await nxt(parent, args, ctx, info)
-    for dd in M["directives"]: Directive(dd["name"], schema_name=name)(Mark())
+    # a directive that is only DECLARED (no implementation registered) is described like any other, arguments included
+    for dd in M["directives"]:
+        if next(_uid) % 3 == 0 and dd["name"] == "mark": continue
+        Directive(dd["name"], schema_name=name)(Mark())
     # the description may not depend on the engine's concurrency settings: every other engine is built with non-default ones
     k = next(_uid) % 4
     kw = [{}, {"coerce_parent_concurrently": False}, {"coerce_list_concurrently": False}, {"coerce_parent_concurrently": False, "coerce_list_concurrently": False}][k]
